@@ -297,6 +297,7 @@ func sortedKeys(m map[string]bool) []string {
 var propDeps = map[string][]string{
 	"C03": {"C02"},
 	"C12": {"C02", "C03"},
+	"C09": {"C02", "C03"},
 	"C04b": {"C04"},
 }
 
